@@ -39,6 +39,20 @@ class InfraError(Exception):
     pass
 
 
+def import_exo():
+    """make `import exo` resolve to REPO/src (the tree under test; /repo unless EXO_REPO is set)"""
+    src = str(REPO / "src")
+    if src in sys.path:
+        sys.path.remove(src)
+    sys.path.insert(0, src)
+    os.environ["PYTHONPATH"] = src + os.pathsep + os.environ.get("PYTHONPATH", "")
+    import exo  # noqa
+
+    if not str(Path(exo.__file__).resolve()).startswith(str(REPO.resolve())):
+        raise InfraError(f"exo imported from {exo.__file__}, expected under {REPO}")
+    return exo
+
+
 def sh(cmd, cwd=None, timeout=3600, env=None, input=None):
     e = dict(os.environ)
     if env:
